@@ -23,6 +23,7 @@ from sa.pyfront import Program
 from sa.symex import Interp
 
 RULES = {
+    "R-C03-p": "the index-cube fill closures come in a traced and an untraced variant (timing diagnostics): both store the same cell values",
     "R-C03-o": "the flat cell number the array cube hands to fill() is the SUM over all dimensions of the strided 1-D coordinate slices (reduce(operator.add, one slice per dimension)), None only when there is no dimension",
     "R-C03-n": "xfunc.bins presents every cell of range(size) with the mask coordinates == u (and, without a size, every distinct value with its rows): the per-cell fill loops of the array cube rest on it",
     "R-C03-m": "aggregate constructors do not overwrite the caller's arrays (imported from the C17 frame analysis): NaN-seeding or zero-filling the caller's own array changes what every later computation over it - the other cube, a group-by, the next statistic - sees",
@@ -379,6 +380,11 @@ def main(tier):
     for rule, status, where, cons, detail, wit in CF.items:
         rep.add(rule, where, cons, status, detail, True, wit)
     rep.floor("R-C03-j", 10, nf + 0)
+    CT2 = AT.Collector()
+    nt2 = AT.rule_tracing_twins(prog, CT2, "R-C03-p")
+    for rule, status, where, cons, detail, wit in CT2.items:
+        rep.add(rule, where, cons, status, detail, True, wit)
+    rep.floor("R-C03-p", 2, nt2)
     CD = AT.Collector()
     nd = AT.rule_region_dtypes(prog, CD, "R-C03-i")
     for rule, status, where, cons, detail, wit in CD.items:
